@@ -93,6 +93,7 @@ func c09Report(c *mc.Ctx, what, desc string, pan any, hung bool, dump string) bo
 	}
 	if hung {
 		c.Outcome("hang")
+		c.NoRerun()
 		c.Fail("C09 hang in "+what, "%s: no return within %v\n%s", desc, c09Watchdog, dump)
 		return true
 	}
@@ -290,7 +291,7 @@ func c09Seeds(tier mc.Tier) []c09Seed {
 	seeds = append(seeds, c09Seed{"certificate file: PEM chain", pemOf(chain...), c09CertFile})
 	seeds = append(seeds, c09Seed{"certificate file: DER single", chain[0].DER, c09CertFile})
 	seeds = append(seeds, c09Seed{"certificate file: DER concatenated", append(append([]byte{}, chain[0].DER...), chain[1].DER...), c09CertFile})
-	if tier == mc.Thorough {
+	{
 		seeds = append(seeds, c09Seed{"certificate file: PEM with leading text and a key block", append(append([]byte("subject=foo\n"), pemOf(chain[0])...), pki.K("p256-e").PEM...), c09CertFile})
 	}
 	seeds = append(seeds, c09Seed{"key file: PKCS#8 EC", pki.K("p256-e").PEM, c09KeyFile})
@@ -465,6 +466,7 @@ func c09Hostile(c *mc.Ctx) {
 	if pan != nil {
 		c.Fail(fmt.Sprintf("C09 panic in %s with a hostile %s URL", entry, strings.Split(kind, "-")[0]), "URL %.80q (serial %d bytes, answer %s): %v", u, serialLen, ans, pan)
 	} else if hung {
+		c.NoRerun()
 		c.Fail(fmt.Sprintf("C09 hang in %s with a hostile %s URL", entry, kind), "URL %.80q answer %s\n%s", u, ans, dump)
 	}
 }
@@ -549,6 +551,7 @@ func c09OddCRLs(c *mc.Ctx) {
 	if pan != nil {
 		c.Fail("C09 panic on an authentic but unusual CRL bundle ("+sh+")", "fetcher %s: %v", fetcherKind, pan)
 	} else if hung {
+		c.NoRerun()
 		c.Fail("C09 hang on an unusual CRL bundle ("+sh+")", "%s", dump)
 	}
 }
